@@ -29,6 +29,17 @@ def _parse(src: str) -> ast.AST:
         m = ast.parse(src)
     except SyntaxError:
         m = ast.parse("(" + src + ")")
+    from . import normal
+    # the form a rule expects is brought to the same canonical spelling as the repository's code (sa/normal.py);
+    # wrapped in a function so that the function-level steps (annotations, temporaries) apply
+    if m.body and all(isinstance(x, ast.stmt) for x in m.body) and not (len(m.body) == 1 and isinstance(m.body[0], ast.Expr)):
+        try:
+            w = ast.parse("def _f_():\n    pass")
+            w.body[0].body = m.body
+            w = normal.normalise(w)
+            m.body = w.body[0].body
+        except Exception:  # noqa: BLE001 -- a form with `return`/`continue` outside its context etc.: leave as written
+            pass
     if len(m.body) == 1:
         s = m.body[0]
         return s.value if isinstance(s, ast.Expr) else s
